@@ -309,3 +309,228 @@ CONTRACTS = [
     Contract('control.if_block', PROPS, ['qbee.qvm_codegen:gen_if_block'], body_if_block,
              cases=[(t, n, e) for t in ('INTEGER', 'LONG') for n in (0, 1, 2) for e in (False, True)]),
 ]
+
+
+# ------------------------------------------------------------------ FOR ... NEXT
+
+from spec import qb_ops, qb_num
+from contracts.vm import RANGE, same, prove_cell
+
+KF_FOR_RANGE = 'KF-C01-for-range-test-overflows'
+KF_FOR_STEP0 = 'KF-C01-for-step-zero-not-skipped'
+
+
+class MachineV(Machine):
+    """Machine with named variable cells (locals / globals of the template's temporaries)"""
+
+    def __init__(self, h, instrs, default_type):
+        super().__init__(h, instrs)
+        self.vars = {}
+        self.default_type = default_type
+
+    def run(self, limit=200):
+        h, cpu = self.h, self.cpu
+        for _ in range(limit):
+            if self.pc >= len(self.instrs):
+                return ('end',)
+            ins = self.instrs[self.pc]
+            if not isinstance(ins, ChildInstr):
+                fo = h.call(type(ins).final.fget, ins)
+                op, *args = fo.value
+                base = op.rstrip('%&!#$@')
+                if base in ('storel', 'storeg') and args and isinstance(args[0], str):
+                    out = h.call(cpu.pop)
+                    if not out.returned:
+                        return ('raise', out)
+                    self.vars[args[0]] = out.value
+                    self.pc += 1
+                    continue
+                if base in ('readl', 'readg') and args and isinstance(args[0], str):
+                    src = self.vars[args[0]]
+                    self.push(src)
+                    self.pc += 1
+                    continue
+            r = self._step()
+            if r is not None:
+                return r
+        return ('limit',)
+
+    def _step(self):
+        h, cpu = self.h, self.cpu
+        ins = self.instrs[self.pc]
+        if isinstance(ins, ChildInstr):
+            self.pc += 1
+            return ('child', ins.k)
+        op, *args = h.call(type(ins).final.fget, ins).value
+        self.pc += 1
+        if op.startswith('_'):
+            return None
+        if op == 'jmp':
+            self.pc = self.labels[args[0]]
+            return None
+        if op == 'jz':
+            cpu.pc = self.pc
+            out = h.call(cpu._exec_jz, self.labels[args[0]])
+            if not out.returned:
+                return ('raise', out)
+            self.pc = cpu.pc
+            return None
+        out = h.call(getattr(cpu, exec_name(op)), *args)
+        if not out.returned:
+            return ('raise', out)
+        return None
+
+
+class _Var:
+    def __init__(self, name, is_global):
+        self.name = name
+        self.is_global = is_global
+        self.full_name = name
+
+
+class _ForVar:
+    def __init__(self, t, var):
+        self.type = t
+        self._v = var
+
+    def get_base_variable(self):
+        return self._v
+
+
+class _Routine:
+    def __init__(self):
+        self.local_vars = {}
+
+
+def gen_for(h, t, has_step):
+    qt = TYPES[t][1]
+    node = object.__new__(stmt.ForBlock)
+    node.var = _ForVar(qt, _Var('i', False))
+    mk = lambda k: (lambda n: (setattr(n, 'k', k), n)[1])(_LvStub(qt))
+    node.step_expr = mk(0) if has_step else None
+    node.from_expr, node.to_expr = mk(1), mk(2)
+    node.body = [Body(3)]
+    node._parent_routine = _Routine()
+    node.parent = None
+    code = QvmCode()
+    g = TGen()
+    out = h.call(qvm_codegen.gen_for_block, node, code, g)
+    return out, code, node, g
+
+
+def in_range(t, v):
+    if TYPES[t][0] in RANGE:
+        lo, hi = RANGE[TYPES[t][0]]
+        return land(lo <= v, v <= hi)
+    return True
+
+
+def continues(s, v, limit):
+    """the loop runs for v iff v has not passed the limit in the direction of the step (step 0 counts as upward)"""
+    return lor(land(s >= 0, v <= limit), land(s < 0, v >= limit))
+
+
+def body_for_init(h, t, has_step):
+    out, code, node, g = gen_for(h, t, has_step)
+    if not out.returned:
+        h.prove('generator.no_exception', False, detail=repr(out))
+        return
+    h.prove('block_context_popped', g.cur_blocks == [])
+    h.prove('three_temporaries_registered', len(node._parent_routine.local_vars) == 3)
+    m = MachineV(h, code._instrs, TYPES[t][0])
+    ct = TYPES[t][0]
+    s = mkcell(h, ct, 'step') if has_step else None
+    f, to = mkcell(h, ct, 'from'), mkcell(h, ct, 'to')
+    if has_step:
+        if not expect_child(h, m.run(), 0, 'step_evaluated_first'):
+            return
+        m.push(s)
+    if not expect_child(h, m.run(), 1, 'from_evaluated'):
+        return
+    m.push(f)
+    if not expect_child(h, m.run(), 2, 'to_evaluated'):
+        return
+    m.push(to)
+    r = m.run()
+    sv = s.value if has_step else (1 if ct in RANGE else 1.0)
+    fv, tv = f.value, to.value
+    if ct in RANGE:
+        # genuine defect (known finding): the range test computes (to - from) * sign, to * sign and var * sign in the
+        # variable's type; any of them leaving the type is a spurious Overflow
+        sg = h.spec(qb_ops.sign, sv)
+        kn = [(KF_FOR_RANGE, lor(lnot(in_range(t, tv - fv)), lnot(in_range(t, (tv - fv) * sg)), lnot(in_range(t, tv * sg)),
+                                 lnot(in_range(t, fv * sg)))),
+              (KF_FOR_STEP0, land(sv == 0, fv > tv))]
+    else:
+        kn = [(KF_FOR_STEP0, land(sv == 0, fv > tv))]
+    if r[0] == 'raise':
+        h.prove('range_test_cannot_fail', False, detail=repr(r[1]), known=kn)
+        return
+    if h.branch(continues(sv, fv, tv)):
+        if not expect_child(h, r, 3, 'body_entered_when_range_not_empty', known=kn):
+            return
+        m.depth_is_entry('body_at_entry_depth')
+        h.prove('control_variable_is_from', land(m.vars['i'].type == ct, same(m.vars['i'].value, fv)))
+    else:
+        h.prove('empty_range_skips_the_loop', r[0] == 'end', detail=repr(r), known=kn)
+        m.depth_is_entry('exit_at_entry_depth')
+
+
+def body_for_step(h, t):
+    """inductive step: from the loop test with an arbitrary control value v (temporaries as the initialisation leaves
+    them): after the body the variable is advanced by the step (Overflow if it leaves the type) and the loop continues
+    iff the new value has not passed the limit in the direction of the step"""
+    out, code, node, g = gen_for(h, t, True)
+    if not out.returned:
+        h.prove('generator.no_exception', False, detail=repr(out))
+        return
+    ct = TYPES[t][0]
+    m = MachineV(h, code._instrs, ct)
+    names = list(node._parent_routine.local_vars)
+    step_var, sign_var, to_var = names
+    s, v, lim = mkcell(h, ct, 'step'), mkcell(h, ct, 'v'), mkcell(h, ct, 'limit')
+    sgn = h.spec(qb_ops.sign, s.value)
+    if ct not in RANGE:
+        from pyvc.sym import ite
+        sgn = ite(sgn == 1, 1.0, ite(sgn == -1, -1.0, 0.0)) if is_sym(sgn) else float(sgn)
+    if h.symbolic:
+        h.require(s.value != 0)
+    elif s.value == 0:
+        return
+
+    def cell(val):
+        c = object.__new__(CellValue)
+        c.type, c.value = ct, val
+        return c
+    m.vars = {'i': v, step_var: s, sign_var: cell(sgn), to_var: cell(lim.value * sgn)}
+    if ct in RANGE and h.symbolic:
+        h.require(in_range(t, lim.value * sgn))
+    # start right after the body: at the NEXT label
+    m.pc = m.labels[[k for k in m.labels if 'for_next' in k][0]]
+    r = m.run()
+    nv = v.value + s.value
+    ovf = lnot(in_range(t, nv)) if ct in RANGE else h.spec(qb_num.is_inf, nv)
+    if r[0] == 'raise':
+        ok = r[1].raised(Trapped) and r[1].exc.trap_code == TrapCode.INVALID_CELL_VALUE
+        h.prove('only_overflow_of_the_control_variable_can_trap', ok, detail=repr(r[1]))
+        h.prove('trap_only_if_next_value_leaves_the_type', ovf if ct in RANGE else True,
+                known=[(KF_FOR_RANGE, lnot(in_range(t, nv * sgn)))] if ct in RANGE else None)
+        return
+    if ct in RANGE:
+        h.prove('no_missed_overflow', lnot(ovf))
+    h.prove('control_variable_advanced_by_step', same(m.vars['i'].value, nv))
+    if h.branch(continues(s.value, nv, lim.value)):
+        expect_child(h, r, 3, 'continues_while_within_the_limit')
+    else:
+        h.prove('ends_beyond_the_limit', r[0] == 'end', detail=repr(r))
+    m.depth_is_entry('at_entry_depth')
+
+
+CONTRACTS += [
+    Contract('control.for_init', PROPS, ['qbee.qvm_codegen:gen_for_block'], body_for_init,
+             cases=[(t, s) for t in ('INTEGER', 'LONG') for s in (False, True)], explorer={'prove_timeout_ms': 60000}),
+    Contract('control.for_step', PROPS, ['qbee.qvm_codegen:gen_for_block'], body_for_step, cases=[(t,) for t in ('INTEGER', 'LONG')],
+             explorer={'prove_timeout_ms': 60000}),
+    Contract('control.for_init.double', PROPS, ['qbee.qvm_codegen:gen_for_block'], body_for_init,
+             cases=[('DOUBLE', s) for s in (False, True)], explorer={'prove_timeout_ms': 120000}, fp_exact=True, tier='thorough'),
+]
